@@ -1,4 +1,11 @@
-"""C19: gzip/zlib wrapper headers (igzip/igzip.c writers, igzip/igzip_inflate.c readers)."""
+"""C19: gzip/zlib wrapper headers (igzip/igzip.c writers, igzip/igzip_inflate.c readers).
+
+Quick tier: every harness <= ~120 s solver.  isal_write_gzip_header is one contract checked in four
+obligation groups (a: status/counters/frame postconditions, b: layout postconditions, c: pointer checks of the
+function and its contract, d: everything else); the monolithic run is in the thorough tier.
+isal_read_gzip_header: the helper contracts, the zlib reader and the two cheapest entry points of the gzip
+reader (resume at the CRC16, resume inside the comment) are quick; the contract over ALL entry points with a
+symbolic number of carried bytes (and the resume-at-name instance) is thorough (cadical, ~5 GB)."""
 from runner import H
 
 IGZIP = ['igzip/igzip.c']
@@ -6,25 +13,118 @@ INFL = ['igzip/igzip_inflate.c']
 
 T_STRNLEN = 'strnlen (libc, no CBMC model): ASSUMED contract contracts/stubs_libc.h (r<=maxlen, r<maxlen => s[r]==0, no NUL before r)'
 T_CRC = 'crc32_gzip_refl (dispatched NASM symbol): ASSUMED contract contracts/stubs_libc.h (arbitrary value, call recorded; requires len readable bytes is checked)'
+T_MEMCPY = ('memcpy into state->tmp_in_buffer (fixed_size_read) modelled in the harness as typed byte stores into the array member, '
+            'asserting the destination range lies inside tmp_in_buffer and n<=10 (built-in model: byte update of the whole 87 KB struct, does not convert)')
+T_CUT = ('HR_CUT lemmas at the entry of each helper inlined in isal_read_gzip_header: asserted first (obligation "lemma: ..."), then restated with '
+         'GHOST_AXIOM as a cut point for the solver (assert-then-assume of the same condition)')
+
+GZW = dict(entry='h_gzip_write_header', enforce='isal_write_gzip_header', replace=['strnlen', 'crc32_gzip_refl'], also=['C05', 'C15', 'C10'],
+           replay=('hdr.c', 'gzip_write_header'), trusted=[T_STRNLEN, T_CRC])
+RD = dict(also=['C05', 'C06', 'C15'])
+GZR = dict(entry='h_gzip_read_header', enforce='isal_read_gzip_header', replace=['strnlen', 'crc32_gzip_refl'], also=['C07', 'C05', 'C06', 'C15'],
+           expect=['postcondition', 'precondition', 'assertion'], trusted=[T_STRNLEN, T_CRC, T_MEMCPY, T_CUT],
+           replay=('hdr.c', 'gzip_read_header'))
+P1 = r'isal_write_gzip_header\.postcondition\.1$'
 
 HARNESSES = [
+    # ---- writers (igzip/igzip.c)
     H('zlib_write_header', ['C19'], 'igzip/zlib_hdr.c', IGZIP, enforce='isal_write_zlib_header',
       also=['C05', 'C15', 'C10'], timeout=600, expect=['postcondition'], replay=('hdr.c', 'zlib_write_header')),
-    H('gzip_write_header', ['C19'], 'igzip/gzip_hdr.c', IGZIP, enforce='isal_write_gzip_header',
-      replace=['strnlen', 'crc32_gzip_refl'], also=['C05', 'C15', 'C10'], timeout=900,
-      expect=['postcondition', 'precondition'], replay=('hdr.c', 'gzip_write_header'),
-      trusted=[T_STRNLEN, T_CRC]),
+    H('gzip_write_header_a', ['C19'], 'igzip/gzip_hdr.c', IGZIP, timeout=900, expect=['postcondition'],
+      properties=[r'isal_write_gzip_header\.postcondition\.[1-9]$'],
+      note='status, counters, frame: postconditions 1-9 of the one contract', **GZW),
+    H('gzip_write_header_b', ['C19'], 'igzip/gzip_hdr.c', IGZIP, timeout=900, expect=['postcondition'],
+      properties=[r'isal_write_gzip_header\.postcondition\.1[0-9]$'],
+      note='RFC 1952 layout: postconditions 10-17 of the one contract', **GZW),
+    H('gzip_write_header_c', ['C19'], 'igzip/gzip_hdr.c', IGZIP, timeout=900, expect=['pointer_dereference'],
+      properties=[r'^isal_write_gzip_header\.pointer', P1],
+      note='pointer checks inside the function and its contract clauses', **GZW),
+    H('gzip_write_header_d', ['C19'], 'igzip/gzip_hdr.c', IGZIP, timeout=900, expect=['precondition', 'assigns'],
+      properties=[r'^(?!isal_write_gzip_header\.(pointer|postcondition))', P1],
+      note='memcpy/strnlen/crc32 call preconditions, assigns clause, overflow checks', **GZW),
+    H('gzip_write_header', ['C19'], 'igzip/gzip_hdr.c', IGZIP, timeout=3600, tier='thorough',
+      expect=['postcondition', 'precondition'], note='all obligations in one run', **GZW),
     # ---- readers (igzip/igzip_inflate.c)
-    H('fixed_size_read', ['C19', 'C07'], 'igzip/hdr_read.c', INFL, enforce='fixed_size_read',
-      also=['C05', 'C06', 'C15'], timeout=600, expect=['postcondition']),
-    H('buffer_header_copy', ['C19', 'C07'], 'igzip/hdr_read.c', INFL, enforce='buffer_header_copy',
-      also=['C05', 'C06', 'C15'], timeout=600, expect=['postcondition']),
+    H('fixed_size_read', ['C19', 'C07'], 'igzip/hdr_read.c', INFL, enforce='fixed_size_read', timeout=600,
+      expect=['postcondition', 'assertion'], trusted=[T_MEMCPY], replay=('hdr.c', 'fixed_size_read'), **RD),
+    # every avail_in up to 2^32-1: on the pinned tree avail_in + tmp_in_size wrapped in 32 bits (finding, fixed by
+    # /repo 4feec5d); this instance FAILS "memcpy model: destination range inside tmp_in_buffer" if the fix is reverted
+    H('fixed_size_read_full_range', ['C19', 'C05'], 'igzip/hdr_read.c', INFL, enforce='fixed_size_read',
+      entry='h_fixed_size_read', timeout=600, defines=['HR_MAX_AVAIL=0xffffffffu'], expect=['postcondition', 'assertion'],
+      trusted=[T_MEMCPY], replay=('hdr.c', 'fixed_size_read_wrap'), **RD),
+    H('buffer_header_copy', ['C19', 'C07'], 'igzip/hdr_read.c', INFL, enforce='buffer_header_copy', timeout=600,
+      expect=['postcondition'], bounds='buffer_len/str_len and avail_in <= 65536 (so that a failing obligation yields a printable counterexample); unbounded instance: buffer_header_copy_unbounded (thorough)', **RD),
     H('string_header_copy', ['C19', 'C07'], 'igzip/hdr_read.c', INFL, enforce='string_header_copy',
-      replace=['strnlen'], also=['C05', 'C06', 'C15'], timeout=600, expect=['postcondition', 'precondition'],
-      trusted=[T_STRNLEN]),
-    H('zlib_read_header', ['C19', 'C07'], 'igzip/hdr_read.c', INFL, enforce='isal_read_zlib_header',
-      also=['C05', 'C06', 'C15'], timeout=600, expect=['postcondition']),
-    H('gzip_read_header', ['C19', 'C07'], 'igzip/hdr_read.c', INFL, enforce='isal_read_gzip_header',
-      replace=['strnlen', 'crc32_gzip_refl'], also=['C05', 'C06', 'C15'], timeout=900,
-      expect=['postcondition', 'precondition'], trusted=[T_STRNLEN, T_CRC]),
+      replace=['strnlen'], timeout=600, expect=['postcondition', 'precondition'], trusted=[T_STRNLEN],
+      replay=('hdr.c', 'gzip_read_header'), bounds='buffer_len/str_len and avail_in <= 65536 (so that a failing obligation yields a printable counterexample); unbounded instance: string_header_copy_unbounded (thorough)', **RD),
+    H('buffer_header_copy_unbounded', ['C19'], 'igzip/hdr_read.c', INFL, entry='h_buffer_header_copy',
+      enforce='buffer_header_copy', timeout=1200, tier='thorough', defines=['HR_UNBOUNDED'], expect=['postcondition'],
+      also=['C07', 'C05', 'C06', 'C15']),
+    H('string_header_copy_unbounded', ['C19'], 'igzip/hdr_read.c', INFL, entry='h_string_header_copy',
+      enforce='string_header_copy', replace=['strnlen'], timeout=1200, tier='thorough', defines=['HR_UNBOUNDED'],
+      expect=['postcondition', 'precondition'], trusted=[T_STRNLEN], also=['C07', 'C05', 'C06', 'C15']),
+    H('zlib_read_header', ['C19', 'C07'], 'igzip/hdr_read.c', INFL, enforce='isal_read_zlib_header', timeout=600,
+      expect=['postcondition', 'assertion'], trusted=[T_MEMCPY], replay=('hdr.c', 'zlib_read_header'), **RD),
+    H('gzip_read_header_hcrc', ['C19'], 'igzip/hdr_read.c', INFL, timeout=900,
+      defines=['HR_FIX_BS=ISAL_GZIP_HCRC'], bounds='entry point fixed: block_state == ISAL_GZIP_HCRC ; caller buffers and avail_in <= 65536 (instance of the thorough harness gzip_read_header, which is unbounded)',
+      **GZR),
+    H('gzip_read_header_comment', ['C19'], 'igzip/hdr_read.c', INFL, timeout=1200,
+      defines=['HR_FIX_BS=ISAL_GZIP_COMMENT'], solver='cadical',
+      bounds='entry point fixed: block_state == ISAL_GZIP_COMMENT ; caller buffers and avail_in <= 65536 (instance of the thorough harness gzip_read_header, which is unbounded)', **GZR),
+    H('gzip_read_header_name', ['C19'], 'igzip/hdr_read.c', INFL, timeout=1200,
+      defines=['HR_FIX_BS=ISAL_GZIP_NAME'], solver='cadical',
+      bounds='entry point fixed: block_state == ISAL_GZIP_NAME ; caller buffers and avail_in <= 65536 (instance of the thorough harness gzip_read_header, which is unbounded)', **GZR),
+    H('gzip_read_header_extra', ['C19'], 'igzip/hdr_read.c', INFL, timeout=1800, tier='thorough',
+      defines=['HR_FIX_BS=ISAL_GZIP_EXTRA'], solver='cadical',
+      bounds='entry point fixed: block_state == ISAL_GZIP_EXTRA ; caller buffers and avail_in <= 65536 (instance of the thorough harness gzip_read_header, which is unbounded)', **GZR),
+    H('gzip_read_header_xlen', ['C19'], 'igzip/hdr_read.c', INFL, timeout=1800, tier='thorough',
+      defines=['HR_FIX_BS=ISAL_GZIP_EXTRA_LEN'], solver='cadical',
+      bounds='entry point fixed: block_state == ISAL_GZIP_EXTRA_LEN ; caller buffers and avail_in <= 65536 (instance of the thorough harness gzip_read_header, which is unbounded)', **GZR),
+    H('gzip_read_header_fresh', ['C19'], 'igzip/hdr_read.c', INFL, timeout=1800, tier='thorough',
+      defines=['HR_FIX_BS=ISAL_BLOCK_NEW_HDR', 'HR_FIX_T=0'], solver='cadical',
+      bounds='entry point fixed: fresh header (block_state == ISAL_BLOCK_NEW_HDR, nothing carried) ; caller buffers and avail_in <= 65536 (instance of the thorough harness gzip_read_header, which is unbounded)', **GZR),
+    H('gzip_read_header', ['C19'], 'igzip/hdr_read.c', INFL, timeout=7200, tier='thorough', solver='cadical',
+      defines=['HR_UNBOUNDED'],
+      note='all six entry points, symbolic number of carried bytes; ~5 GB', **GZR),
+    # ---- lemma over the two zlib contracts
+    H('zlib_roundtrip', ['C19'], 'igzip/hdr_roundtrip.c', IGZIP + INFL,
+      replace=['isal_write_zlib_header', 'isal_read_zlib_header'], timeout=600, expect=['assertion', 'precondition'],
+      functions=['isal_write_zlib_header', 'isal_read_zlib_header'],
+      properties=[r'^h_zlib_roundtrip\.assertion', r'\.precondition\.'],
+      note='contracts only: writer -> reader in one call returns the same fields (both contracts proved separately); obligations = the lemma assertions and the preconditions of the two replaced calls (pointer checks inside the contract clauses belong to the enforcing harnesses and run out of memory here)'),
 ]
+
+PROP_TEXT = {'C19': {
+    'assumptions': [
+        'strnlen behaves as POSIX specifies (assumed contract, contracts/stubs_libc.h); crc32_gzip_refl is the dispatched NASM routine: '
+        'the header CRC16 clauses say "low 16 bits, LSB first, of the value that routine returned for exactly (0, start of header, '
+        'bytes before the CRC)"; that the routine computes CRC-32 is C04 (portable variant only)',
+        'isal_write_gzip_header preconditions: extra_len <= 65535 (XLEN is 16 bits; the code silently stores the low 16 bits of the '
+        '32-bit member and copies extra_len bytes), name/comment contain a NUL inside name_buf_len/comment_buf_len (otherwise the code '
+        'emits an unterminated field), each string shorter than 2 GiB - 1 MiB (the size is returned as uint32_t and computed in 32 bits), '
+        'xflags/os are stored as their low 8 bits; isal_write_zlib_header: info <= 7, level <= 3',
+        'readers: contracts are per call over a well-formed state (HR_WF_ZLIB / HR_WF_GZIP in contracts/igzip_hdr_read.h: block_state is one '
+        'of the header states, fewer bytes carried in tmp_in_buffer than the field being read, resume offsets inside the caller buffers, i.e. a '
+        'buffer handed back after an overflow status is not smaller than before) and arbitrary input bytes; each reader re-establishes the '
+        'well-formedness on every resumable status (proved), the induction over a sequence of calls is not mechanised',
+        'readers other than fixed_size_read_full_range: avail_in <= 2^32-1-328 (harness domain).  On the pinned tree fixed_size_read added '
+        'avail_in + tmp_in_size in 32 bits: with one header byte carried and a chunk of 2^32-1 bytes the sum wrapped and ~4 GiB were copied into the '
+        '328-byte tmp_in_buffer (finding, reproduced natively by replay/hdr.c mode fixed_size_read_wrap, repaired by /repo commit 4feec5d); '
+        'fixed_size_read_full_range proves the helper for every avail_in',
+        'memcpy into state->tmp_in_buffer is modelled in the reader harnesses as typed byte stores (asserting the destination range lies '
+        'inside tmp_in_buffer); the cut-point lemmas in isal_read_gzip_header are asserted before they are assumed',
+        'calling a reader with block_state outside the header states returns ISAL_DECOMP_OK without parsing anything (switch without default); '
+        'excluded by the well-formedness precondition ("state must be initialized")',
+    ],
+    'not_decided': [
+        'many-call resume induction (any chunking = any sequence of calls): only the per-call step and the re-established well-formedness are '
+        'proved; the native battery replay/hdr.c exercises all one/two/three-cut chunkings of a header family against an independent RFC 1952 '
+        'producer, which is testing, not proof',
+        'gzip writer -> gzip reader round trip as a contract lemma (only the zlib round trip is mechanised); full field recovery by '
+        'isal_read_gzip_header across optional fields is stated per field/entry point, not as one end-to-end equation',
+        'isal_read_gzip_header over all entry points with a symbolic number of carried bytes runs only in the thorough tier (cadical, ~5 GB); the '
+        'quick tier has the helper contracts, the zlib reader and the resume-at-CRC16 / resume-inside-comment instances',
+        'header emission inside isal_deflate (write_stream_header*, gzip_hdr_bytes/zlib_hdr_bytes) belongs to the deflate family, not covered here',
+        'every ISA variant of crc32_gzip_refl',
+    ],
+}}
